@@ -127,7 +127,7 @@ def build(desc, update=True):
         db.add_ecu(cm.Ecu(e))
     for f in desc["frames"]:
         fr = cm.Frame(f["name"], arbitration_id=cm.ArbitrationId(f["id"], f["ext"]), size=f["size"], transmitters=list(f["transmitters"]),
-                      comment=f.get("comment"), is_fd=f.get("fd", False), is_j1939=f.get("j1939", False), cycle_time=f.get("cycle", 0))
+                      comment=f.get("comment") or "", is_fd=f.get("fd", False), is_j1939=f.get("j1939", False), cycle_time=f.get("cycle", 0))
         for s in f["signals"]:
             kw = {}
             if s.get("min") is not None:
